@@ -514,7 +514,7 @@ def extract_value(v, node, pkts):
     return v
 
 
-def construct(mod, P, pv, how='kw'):
+def construct(mod, P, pv, how='kw', reuse=None):
     """a real packet of class P['name'] holding the values pv (a PV); how: 'kw' = constructor keywords,
     'attr' = default construction + attribute assignment"""
     cls = getattr(mod, P['name'])
@@ -530,7 +530,7 @@ def construct(mod, P, pv, how='kw'):
     mod_pkts = pkts
     if how == 'kw':
         return cls(**{k: conv(v) for k, v in pv.vals.items()})
-    obj = cls()
+    obj = cls() if reuse is None else reuse      # reuse: a packet that was already used (packed/parsed) gets new values
     if how == 'inplace':
         # default construction, then the lists the packet was born with are filled IN PLACE
         for k, v in pv.vals.items():
